@@ -50,6 +50,7 @@ package keeper
 //@ family farmers key types.KeyFarmInfo value types.FarmInfo prefix types.PrefixFarmInfo
 //@ family active  key types.KeyActiveFarmPool value str prefix types.PrefixActiveFarmPool,global:types.ActiveFarmPoolKey
 //@ family poolSeq key types.KeyFarmPoolSeq value uint64
+//@ family escrowF key types.KeyEscrowInfo value types.EscrowInfo
 
 // every stored rule is stored under its own reward denomination
 //@ define rulesWF = forall p:Str :: forall d:Str :: has(ruleF, p, d) ==> get(ruleF, p, d).Reward == d
